@@ -2,7 +2,7 @@
 from common_tb import COMMON_TB
 
 CFG = dict(
-    id="C19", tie="Tie.C19", n_quick=36, n_thorough=300, thorough_seeds=3, gen_timeout=2400,
+    id="C19", tie="Tie.C19", n_quick=36, n_thorough=200, thorough_seeds=3, gen_timeout=2400,
     rule="a case is one HISTORY on the real document.Engine (store in a temp dir): random collection schema (2-5 typed "
          "fields INTEGER/DOUBLE/STRING/BOOLEAN/UUID incl. nested paths a.x, a.y.z, p.q.r.s, custom id field name; 0-2 "
          "indexes of 1-2 columns, some unique), then 12-41 random operations: InsertDocuments (1-3 documents: nested "
